@@ -88,7 +88,7 @@ ARITH_FOLD = {
 NEG_CMP = {"Eq": "Ne", "Ne": "Eq", "Lt": "Ge", "Ge": "Lt", "Gt": "Le", "Le": "Gt"}
 
 
-def mk_bin(op, a, b):
+def mk_bin(op, a, b, ty=None):
     if op.endswith("Unchecked"):
         op = op[: -len("Unchecked")]
     if is_int(a) and is_int(b):
@@ -98,7 +98,7 @@ def mk_bin(op, a, b):
             return mk_int(ARITH_FOLD[op](a[1], b[1]))
     if op.endswith("WithOverflow"):
         base = op[: -len("WithOverflow")]
-        return ("agg", "tuple", (mk_bin(base, a, b), ("ovf", base, a, b)))
+        return ("agg", "tuple", (mk_bin(base, a, b), ("ovf", base, a, b, ty)))
     return ("bin", op, a, b)
 
 
@@ -823,7 +823,10 @@ class Interp:
                 return ("fcmp", op, a, b)
             if ty in ("f32", "f64"):
                 return ("fbin", op, a, b)
-            return mk_bin(op, a, b)
+            r = mk_bin(op, a, b, ty)
+            if ty and isinstance(r, tuple) and r and r[0] == "bin" and r not in self.tys and op not in CMP_FOLD:
+                self.tys[r] = ty
+            return r
         if k == "un":
             a = self.operand(st, rv["a"])
             if rv["op"] == "Not" and rv.get("opty") == "bool":
